@@ -276,7 +276,9 @@ def rule_guards(F, R):
     for name, tok in (("alt[x]", T.branch("alt", [T.leaf("lit", "x")])), ("alt[x,y]", T.branch("alt", [T.leaf("lit", "x"), T.leaf("lit", "y")])),
                       ("cat[x]", T.branch("cat", [T.leaf("lit", "x")])), ("rep[x]{1,1}", T.branch("rep", [T.leaf("lit", "x")], lower=1, upper=1)),
                       ("rep[x]{1,2}", T.branch("rep", [T.leaf("lit", "x")], lower=1, upper=2)), ("alt[alt[x]]", T.branch("alt", [T.branch("alt", [T.leaf("lit", "x")])])),
-                      ("leaf", T.leaf("lit", "x"))):
+                      ("leaf", T.leaf("lit", "x")),
+                      # `any` of no patterns is an alternation without branches, the empty expression a concatenation without tokens
+                      ("alt[]", T.branch("alt", [])), ("cat[]", T.branch("cat", [])), ("alt[cat[]]", T.branch("alt", [T.branch("cat", [])]))):
         cases = I.explore(lambda: I.call_item(nt, [tok], inst=inst))
         no_panic(R, "C05.guards", "into_non_trivial/" + name, cases, nt.where(), "into_non_trivial")
     # walk behaviour constructors (out of scope of C05 but guarded locally)
